@@ -1145,11 +1145,9 @@ int main(int argc, char** argv) {
                     }
                 } catch (const std::exception& e) { okk = false; why = e.what(); }
                 if (!okk) { log.fail("restart-exception", joinStrs(all) + " : " + why); continue; }
-                // reported defect of the real reader (design.d/C18.restart-date-paren.*): a parenthesis on a DAY / MNTH / YEAR
-                // comparison is dropped.  Such lists are counted, not judged, until the main session decides about the fix.
-                bool dateParen = false;
-                for (const auto& sp : stored) if ((sp.lhs == "DAY" || sp.lhs == "MNTH" || sp.lhs == "YEAR") && (sp.lp || sp.rp)) dateParen = true;
-                if (dateParen) { ++stats["restart_eval_list.date_paren_not_judged"]; continue; }
+                // (a parenthesis on a DAY / MNTH / YEAR comparison used to be dropped by the reader, design.d/C18.restart-date-paren.*:
+                // repaired by c33735bed, such lists are judged like all others and counted)
+                for (const auto& sp : stored) if ((sp.lhs == "DAY" || sp.lhs == "MNTH" || sp.lhs == "YEAR") && (sp.lp || sp.rp)) { ++stats["restart_eval_list.date_paren"]; break; }
                 std::string r0;
                 try { Action::AST ast(all); try { r0 = showResult(ast.eval(*env.ctx)); } catch (const std::exception&) { r0 = "err"; } } catch (const std::exception&) { r0 = "noparse"; }
                 const std::string r1 = realRstEval(stored, *env.ctx);
